@@ -5,7 +5,10 @@ stdin : {"names": [str, ...], "apis": ["scat", "atom", "elem"]}
 stdout: 'RESULT <json>' with, per name (in the given order; repeated names exercise lru_cache),
    scat : {"ok": {"isotope": str, "fields": [OBS|null x 8]}} | {"err": class, "text": str}
    atom : {"ok": {"isotope": str, "z": int, "weight": OBS|null, "mass": OBS|null}} | {"err": ...}
-   elem : {"group": str|null}            _parse_isotope_name(name); null = TypeError (no match)
+   elem : {"group": str|null}            _parse_isotope_name(name); null = TypeError (no match);
+          {"other": repr} when the helper returns something that is not a string (its interface changed)
+ A result that cannot be read (missing attribute, wrong type) is reported as {"malformed": text} — this
+ script never fails because the package changed a return type.
    OBS  = {"value": [num, den], "variance": [num, den]|null, "unit": {"mult": [n, d], "dims": [...],
            "name": str}, "dtype": str, "ndim": int}
  plus "units": how scipp itself resolves 'fm', 'barn', 'Da'.
@@ -13,6 +16,7 @@ No comparison is made here; the observations are compared with the model inside 
 """
 import json
 import math
+import numbers
 import os
 import sys
 from fractions import Fraction
@@ -52,12 +56,19 @@ def err(ex):
     return {'err': type(ex).__name__, 'text': str(ex)[:120]}
 
 
+def text(x):
+    return x if isinstance(x, str) else {'not_a_string': repr(x)[:80]}
+
+
 def q_scat(name):
     try:
         p = ScatteringParams.for_isotope(name)
     except Exception as ex:
         return err(ex)
-    return {'ok': {'isotope': p.isotope, 'fields': [obs(getattr(p, f)) for f in FIELDS]}}
+    try:
+        return {'ok': {'isotope': text(p.isotope), 'fields': [obs(getattr(p, f)) for f in FIELDS]}}
+    except Exception as ex:       # the returned object cannot be read as a ScatteringParams
+        return {'malformed': f'{type(ex).__name__}: {ex}'[:160], 'repr': repr(p)[:160]}
 
 
 def q_atom(name):
@@ -65,12 +76,20 @@ def q_atom(name):
         a = Atom.for_isotope(name)
     except Exception as ex:
         return err(ex)
-    out = {'isotope': a.isotope, 'z': a.z}
-    for key, prop in (('weight', 'atomic_weight'), ('mass', 'atomic_mass')):
-        try:
-            out[key] = obs(getattr(a, prop))
-        except ValueError:       # documented: the property raises when the quantity is not defined
-            out[key] = None
+    try:
+        z = a.z
+        if isinstance(z, numbers.Integral) and not isinstance(z, bool):
+            z = int(z)
+        else:
+            z = {'not_an_int': repr(z)[:80]}
+        out = {'isotope': text(a.isotope), 'z': z}
+        for key, prop in (('weight', 'atomic_weight'), ('mass', 'atomic_mass')):
+            try:
+                out[key] = obs(getattr(a, prop))
+            except ValueError:       # documented: the property raises when the quantity is not defined
+                out[key] = None
+    except Exception as ex:       # the returned object cannot be read as an Atom
+        return {'malformed': f'{type(ex).__name__}: {ex}'[:160], 'repr': repr(a)[:160]}
     return {'ok': out}
 
 
@@ -79,11 +98,14 @@ def q_elem(name):
     if f is None:
         return {'unavailable': True}
     try:
-        return {'group': f(name)}
+        g = f(name)
     except TypeError:
         return {'group': None}
     except Exception as ex:
         return err(ex)
+    if isinstance(g, str):
+        return {'group': g}
+    return {'other': repr(g)[:80]}       # the private helper's interface changed: nothing to compare directly
 
 
 def main():
@@ -92,16 +114,16 @@ def main():
     out = []
     for name in req['names']:
         r = {}
-        if 'scat' in apis:
-            r['scat'] = q_scat(name)
-        if 'atom' in apis:
-            r['atom'] = q_atom(name)
-        if 'elem' in apis:
-            r['elem'] = q_elem(name)
+        for api, fn in (('scat', q_scat), ('atom', q_atom), ('elem', q_elem)):
+            if api in apis:
+                try:
+                    r[api] = fn(name)
+                except Exception as ex:      # never let one name end the sweep
+                    r[api] = {'malformed': f'{type(ex).__name__}: {ex}'[:160]}
         out.append(r)
     units = {u: unit_info(sc.Unit(u)) for u in ('fm', 'barn', 'Da')}
     print('RESULT ' + json.dumps({'results': out, 'units': units, 'scipp': sc.__version__,
-                                  'atoms_file': atoms.__file__}))
+                                  'atoms_file': atoms.__file__}, default=repr))
 
 
 if __name__ == '__main__':
